@@ -22,7 +22,10 @@ A *script* is a list of ops (all times in ticks of 62.5 ms):
     ["app_set_thread", x, v]   char.set_value(v) in a real worker thread (driver.tid is the loop thread,
                                so AccessoryDriver.publish defers through loop.call_soon_threadsafe);
                                the hand-off runs at the next "ready" / "advance"
-    ["lose", p]                connection_lost(None) delivered to #p
+    ["lose", p]                connection_lost(None) delivered to #p. If the code has not closed the transport
+                               itself this is a PEER-initiated end: as in asyncio (_SelectorTransport.close /
+                               _force_close set _closing before connection_lost is scheduled) is_closing() is
+                               already True when connection_lost runs
     ["stop"]                   AccessoryDriver.async_stop()
 
 Objects are numbered in connection order.  Nothing here knows about the Lean model.
@@ -99,7 +102,12 @@ class FakeTransport(asyncio.Transport):
         super().__init__(extra={"peername": peer})
         self.world = world
         self.idx = idx
-        self.closing = False
+        self.closing = False  # is_closing(): True from close() by the code, or from the peer's end
+
+    def peer_ended(self):
+        """EOF / reset from the peer: asyncio marks the transport closing (not a close() call of the
+        code under check, hence not recorded) and then delivers connection_lost"""
+        self.closing = True
 
     def write(self, data):
         self.world.record(self.idx, "write", bytes(data))
@@ -399,6 +407,8 @@ class World:
             p = op[1]
             if p < len(self.protos) and p not in self.lost:
                 self.lost.add(p)
+                if not self.transports[p].closing:
+                    self.transports[p].peer_ended()
                 self.protos[p].connection_lost(None)
         elif k == "stop":
             if not self.driver.aio_stop_event.is_set():
